@@ -290,7 +290,8 @@ impl DrawExecutor {
     }
 
     fn draw_line(&mut self, x0: i32, y0: i32, x1: i32, y1: i32, color: u8, mask: usize) {
-        let mut line_mask = LINE_STYLE[mask];
+        // user defined line patterns are not supported yet (TODO): drawn solid, like the user defined fill pattern
+        let mut line_mask = LINE_STYLE.get(mask).copied().unwrap_or(LINE_STYLE[0]);
 
         let dx = (x0 - x1).abs();
         let dy = (y0 - y1).abs();
